@@ -219,6 +219,17 @@ def opIp (kind : String) (fields : List String) : String :=
   | "ipgu", [w, v] => b2s (Addr.isGlobalUnicast ⟨natOf w, natOf v⟩)
   | "ipnet", [w, v, p] => b2s (intersectsReserved ⟨⟨natOf w, natOf v⟩, natOf p⟩)
   | "ipcont", [w, v, p, xw, xv] => b2s (Net.contains ⟨⟨natOf w, natOf v⟩, natOf p⟩ ⟨natOf xw, natOf xv⟩)
+  -- the two list-reading reserved-address lints: an error exactly when some listed address / permitted subtree is (intersects) reserved
+  | "iplint-san", [as] =>
+    let addrs : List Addr := (splitList as ",").filterMap (fun a => match a.splitOn ":" with
+      | [w, v] => some ⟨natOf w, natOf v⟩
+      | _ => none)
+    toString (if addrs.any isReserved then Status.error else Status.pass)
+  | "iplint-nc", [ns] =>
+    let nets : List Net := (splitList ns ",").filterMap (fun a => match a.splitOn ":" with
+      | [w, v, p] => some ⟨⟨natOf w, natOf v⟩, natOf p⟩
+      | _ => none)
+    toString (if nets.any intersectsReserved then Status.error else Status.pass)
   | _, _ => "bad-op"
 
 
@@ -577,6 +588,8 @@ def step (line : String) : String :=
   | "ipgu" :: rest => opIp "ipgu" rest
   | "ipnet" :: rest => opIp "ipnet" rest
   | "ipcont" :: rest => opIp "ipcont" rest
+  | "iplint-san" :: rest => opIp "iplint-san" rest
+  | "iplint-nc" :: rest => opIp "iplint-nc" rest
   | "rsa" :: rest => opRsa rest
   | "fermat" :: rest => opFermat rest
   | "tld" :: rest => opTld "tld" rest
